@@ -7,6 +7,9 @@ PROPERTY = 'C18'
 LEVEL = 'exploration'
 ENGINE = 'bex'
 FLAVOURS = ('plain',)
+# plain flavour under the glibc malloc checker: a byte written past the end of a heap block by the (uninstrumented) Fortran
+# library aborts the process in free() and is reported as a killed interpreter
+EXTRA_ENV = {'plain': {'LD_PRELOAD': '/lib/x86_64-linux-gnu/libc_malloc_debug.so.0', 'MALLOC_CHECK_': '3'}}
 TECHNIQUE = 'bounded-exhaustive enumeration of wrapper arguments against defining-equation oracles'
 RULE = ('every wrapper exported by cvxopt.lapack x typecode (d, z) x order / shape x every flag value '
         '(uplo, trans, diag, side, jobz, range, jobu, jobvt, itype, select) x band widths x (ld, offset) layout x '
